@@ -120,6 +120,9 @@ func checkC09(w *World, r *Report) {
 
 	c09Fill(w, r, outer)
 	c09HandOver(w, r)
+	obF := r.Ob("C09.f", "f-owned-bounds", "no slice of a pooled buffer (bufferPool.Get … defer Put) is returned, stored into an object, captured or sent in the state-machine package: range bounds handed to the lazily opened iterator are owned copies", "the iterator of a streamed read is opened after the bounds builder returned its buffers to the pool: aliased bounds are overwritten by the next request and the stream returns keys outside [key, range_end)")
+	checkPooledEscapes(w, obF, fsmRel)
+	obF.NeedFloor(4)
 }
 
 func c09Generator(w *World, obA, obB, obC *Ob, outer, gen *ssa.Function) {
